@@ -1,5 +1,6 @@
 """Property -> rule list. Each rule: (id, text, function(ctx, report))."""
-import rules_cmd, rules_expire, rules_conn, rules_auth
+import rules_cmd, rules_expire, rules_conn, rules_auth, rules_tx
+from shared import SERVER
 
 
 def rules_for(pid):
@@ -44,9 +45,31 @@ def _c17():
     ]
 
 
+def _c07():
+    return [
+        ("R-TX-QUEUE", "in process_frame every effectful call outside the five control commands is dominated by the in_transaction/should_queue_command test and not reachable from its queued edge", rules_tx.rule_queue),
+        ("R-TX-ORDER", "the queue is only appended at the back and consumed front to back; EXEC's loop pushes exactly one result per command (Ok and Err) and has no early exit", rules_tx.rule_order),
+        ("R-TX-RESET", "every exit of EXEC after the in_transaction test passes a reset (in_transaction=false, queue taken/cleared, watched keys cleared), the reset precedes execution; DISCARD/UNWATCH clear on all paths", rules_tx.rule_reset),
+        ("R-TX-ATOMIC", "nothing reachable from EXEC re-enters the event loop or blocks the command thread", rules_tx.rule_tx_atomic(lambda ctx: [SERVER + "handle_exec"], "EXEC")),
+        ("R-TX-CONN", "re-dispatched queued commands receive the executing connection's id, not a constant", rules_tx.rule_tx_conn),
+        ("R-TXNORESP", "nothing reachable from EXEC can yield NoResponse or register a blocked client", rules_conn.rule_txnoresp),
+    ]
+
+
+def _c08():
+    return [
+        ("R-WATCH-W1", "every dataset mutation site in the storage engine has a mark_modified of the same key (by provenance) in the same function", rules_tx.rule_w1),
+        ("R-WATCH-W2", "was_modified_since compares the stamp with the baseline and consults is_expired(); register_watch announces the watcher before reading the stamp; the bump writes the stamp", rules_tx.rule_w2),
+        ("R-WATCH-W3", "the watched-key check dominates execution in EXEC and its abort edges (modified / error) execute nothing; EXEC, DISCARD, UNWATCH clear the watch set", rules_tx.rule_w3),
+        ("R-TX-RESET", "see C07: EXEC/DISCARD/UNWATCH forget all watched keys on every path", rules_tx.rule_reset),
+    ]
+
+
 REGISTRY = {
     "C01": _c01,
     "C02": _c02,
     "C05": _c05,
+    "C07": _c07,
+    "C08": _c08,
     "C17": _c17,
 }
